@@ -458,11 +458,12 @@ func c04AloneRun(cs *C04Case) (*c04Alone, Res) {
 
 // c04Run is one executed schedule, not yet judged.
 type c04Run struct {
-	results [][]Res
-	rr      simrt.RunResult
-	changed []string // shared binding environments modified during the run
-	budget  []int64
-	pol     policy
+	results     [][]Res
+	rr          simrt.RunResult
+	changed     []string // shared binding environments modified during the run
+	budget      []int64
+	pol         policy
+	treeChanged int // parsed render trees whose snapshot changed (probe, not a violation)
 }
 
 // c04Exec runs all tasks of cs under pol on a FRESH world. alone may be nil
@@ -476,7 +477,7 @@ func c04Exec(cs *C04Case, alone *c04Alone, pol policy) *c04Run {
 	tsnaps := make([]string, len(w.tpls))
 	for i, t := range w.tpls {
 		if t != nil {
-			tsnaps[i] = Snapshot(t)
+			tsnaps[i] = Snapshot(t.GetRoot())
 		}
 	}
 	run := &c04Run{pol: pol, results: make([][]Res, len(cs.Tasks)), budget: make([]int64, len(cs.Tasks))}
@@ -489,9 +490,11 @@ func c04Exec(cs *C04Case, alone *c04Alone, pol policy) *c04Run {
 				run.results[i] = append(run.results[i], w.exec(op))
 			}
 		}
+		// generous and absolute: the same operation may legitimately need far more steps
+		// here than alone (a cache that is warm there and cold here)
 		run.budget[i] = 20_000_000
-		if alone != nil {
-			run.budget[i] = alone.steps[i]*50 + 10000
+		if alone != nil && alone.steps[i]*50 > run.budget[i] {
+			run.budget[i] = alone.steps[i] * 50
 		}
 	}
 	c03Pin()
@@ -503,8 +506,10 @@ func c04Exec(cs *C04Case, alone *c04Alone, pol policy) *c04Run {
 	}
 	for i, t := range w.tpls {
 		if t != nil {
-			if s := Snapshot(t); s != tsnaps[i] {
-				run.changed = append(run.changed, fmt.Sprintf("shared parsed template %d was modified during the concurrent run: %s", i, diffAt(tsnaps[i], s)))
+			if s := Snapshot(t.GetRoot()); s != tsnaps[i] {
+				// Not a violation by itself (a correctly synchronised memo inside the tree
+				// is legitimate); an unsynchronised one is the conflict detector's business.
+				run.treeChanged++
 			}
 		}
 	}
